@@ -15,6 +15,8 @@
    rows, rules) run by the real ModelRunner with every report writer on (stage.drive_all, plug-in c17).
 4. "pair" rows: the same cases run again with a stale rerun file planted at the formatter's output path; the file
    that is left is fed back ("@file" as the only input) and a second real run records which scenarios are entered.
+Every second pair row and two of three synth rows are rendered with prog["dupnames"] (all scenarios share one name), so
+the feed-back must select by location, never by name.  All multiprocessing Pools are finished before TLC is started.
 TLC (Rerun_Trace) judges all rows: which scenarios are unsuccessful is computed there from the recorded final
 statuses.  Python renders, runs, records."""
 import io
@@ -196,6 +198,8 @@ def synth_case(job):
     try:
         case, show = job["case"], job["show"]
         prog = synth_prog(case["sh"])
+        if job.get("dupnames"):
+            prog["dupnames"] = True
         flat = G.flatten(prog)
         if [e["kind"] for e in flat["elems"]] != case["kinds"] or [e["parent"] for e in flat["elems"]] != case["parents"]:
             raise RuntimeError("element table of the emitted shape and of gen.flatten differ")
@@ -346,6 +350,7 @@ def describe(meta, row):
     else:
         d["model"] = {k: meta["case"][k] for k in ("sh", "ss", "hk")}
         d["show_skipped"] = meta["show"]
+        d["dupnames"] = meta.get("dupnames", False)
     return json.dumps(d, sort_keys=True)
 
 
@@ -356,7 +361,7 @@ def judge(chk, rows, metas):
     for rid, vs in sorted(verdicts.items()):
         for v in vs:
             meta, row = metas[rid], byid[rid]
-            payload = {"kind": row["kind"], "show": meta.get("show", True)}
+            payload = {"kind": row["kind"], "show": meta.get("show", True), "dupnames": meta.get("dupnames", False)}
             if "job" in meta:
                 payload["job"] = {k: meta["job"][k] for k in ("key", "prog", "cfg", "fault", "fault_kind")}
             else:
@@ -379,20 +384,18 @@ def collect_diverge(chk):
 def run(chk):
     rnd = random.Random(chk.seed)
     quick = chk.quick()
-    # 1. design level (TLC runs while the real runs of 3. and 4. are driven)
-    from concurrent.futures import ThreadPoolExecutor
-    ex = ThreadPoolExecutor(max_workers=1)
-    fut = ex.submit(chk.tlc, "Rerun_MC", "Rerun_MC_quick.cfg" if quick else "Rerun_MC_thorough.cfg", timeout=3000,
-                    workers=WORKERS, coverage=False, heap="8g")
-    # 3. + 4. real runs of the shared plan
-    try:
-        jobs, planned = plan_jobs(chk, 1200 if quick else 20000)
-        rjobs = [dict(j, reports=True, plugins=["c17"]) for j in jobs]
-        run_out = stage.drive_all(rjobs, procs=PROCS)
-        pair_out = pmap(pair_case, jobs)
-    finally:
-        r = fut.result()
-        ex.shutdown()
+    # 3. + 4. real runs of the shared plan.  Every multiprocessing Pool of this part is finished BEFORE TLC is started
+    # (no thread is alive while a Pool forks: a child must not inherit a lock held by a TLC thread).
+    # Every second pair row is rendered with prog["dupnames"]: all scenarios are called `S`, all outlines `O`, so the
+    # feed-back is only right if it selects by location, never by name.
+    jobs, planned = plan_jobs(chk, 1200 if quick else 20000)
+    rjobs = [dict(j, reports=True, plugins=["c17"]) for j in jobs]
+    run_out = stage.drive_all(rjobs, procs=PROCS)
+    pjobs = [dict(j, prog=dict(j["prog"], dupnames=True)) if n % 2 == 0 else j for n, j in enumerate(jobs)]
+    pair_out = pmap(pair_case, pjobs)
+    # 1. design level
+    r = chk.tlc("Rerun_MC", "Rerun_MC_quick.cfg" if quick else "Rerun_MC_thorough.cfg", timeout=3000,
+                workers=WORKERS, coverage=False, heap="8g")
     for name in r.violated:
         chk.violation("C17.design." + name, "design:%s" % name, "TLC: invariant %s violated in Rerun_MC" % name)
     emitted = [json.loads(t[1]) for t in r.by_tag("CASE")]
@@ -406,9 +409,10 @@ def run(chk):
         rest = rnd.sample(rest, nrest)
     sjobs = []
     for c in small + rest:
-        sjobs.append({"key": ["synth", len(sjobs)], "case": c, "show": True})
+        dup = len(sjobs) % 3 != 0                  # two of three models: every scenario has the same name
+        sjobs.append({"key": ["synth", len(sjobs)], "case": c, "show": True, "dupnames": dup})
         if c["hidden"]["ann"] != c["shown"]["ann"]:
-            sjobs.append({"key": ["synth", len(sjobs)], "case": c, "show": False})
+            sjobs.append({"key": ["synth", len(sjobs)], "case": c, "show": False, "dupnames": dup})
     synth_out = pmap(synth_case, sjobs)
     for o in run_out + pair_out + synth_out:
         if "driver_error" in o:
@@ -426,7 +430,7 @@ def run(chk):
                              calls_of(o["events"]), False, rep, dict(NO_LOOP)))
         metas[rid] = {"job": job, "raw": rep.get("raw", [])}
         not_judged += 0 if rows[-1]["ran"] else 1
-    for job, o in zip(jobs, pair_out):
+    for job, o in zip(pjobs, pair_out):
         rid = len(rows) + 1
         rows.append(dict(o["row"], id=rid))
         metas[rid] = {"job": job, "raw": o["raw"]}
@@ -435,7 +439,7 @@ def run(chk):
     for job, o in zip(sjobs, synth_out):
         rid = len(rows) + 1
         rows.append(dict(o["row"], id=rid))
-        metas[rid] = {"case": job["case"], "show": job["show"], "raw": o["raw"]}
+        metas[rid] = {"case": job["case"], "show": job["show"], "dupnames": job["dupnames"], "raw": o["raw"]}
         if o["diffs"]:
             sdiv.append({"row": rid, "model": {k: job["case"][k] for k in ("sh", "ss", "hk")}, "diff": o["diffs"][:2]})
     verdicts = judge(chk, rows, metas)
@@ -457,6 +461,8 @@ def run(chk):
     chk.extra["rows_with_feed_back"] = sum(1 for x in rows if x["loop"]["done"])
     chk.extra["rows_with_second_run"] = sum(1 for x in rows if x["loop"]["ran2done"])
     chk.extra["rows_not_judged_run_died"] = not_judged
+    chk.extra["feed_back_rows_with_identical_scenario_names"] = \
+        sum(1 for x in rows if x["loop"]["done"] and (metas[x["id"]].get("dupnames") or metas[x["id"]].get("job", {}).get("prog", {}).get("dupnames")))
     chk.extra["rows_dry_run"] = sum(1 for x in rows if x["cfg"]["dry"])
     chk.extra["multi_file_rows_with_file"] = sum(1 for x in with_file if len({l["f"] for l in x["file"]["lines"]}) > 1)
     chk.extra["design_cases_emitted"] = len(emitted)
@@ -485,11 +491,11 @@ def replay(chk, payload):
     rp = payload["replay"]
     rows, metas = [], {}
     if rp["kind"] == "synth":
-        o = synth_case({"key": ["replay"], "case": rp["case"], "show": rp.get("show", True)})
+        o = synth_case({"key": ["replay"], "case": rp["case"], "show": rp.get("show", True), "dupnames": rp.get("dupnames", False)})
         if "driver_error" in o:
             raise RuntimeError(o["driver_error"])
         rows.append(dict(o["row"], id=1))
-        metas[1] = {"case": rp["case"], "show": rp.get("show", True), "raw": o["raw"]}
+        metas[1] = {"case": rp["case"], "show": rp.get("show", True), "dupnames": rp.get("dupnames", False), "raw": o["raw"]}
     else:
         job = dict(rp["job"])
         job["flat"] = G.flatten(job["prog"])
